@@ -87,7 +87,8 @@ def unit_serve(select, panic_tags=("C13",), precond=False):
         "decode": _serve_decode,
         "panic_tags": list(panic_tags),
         "extra": KANI_LIGHT,
-        "weight": 3,
+        "weight": 4,
+        "mem_kb": 30_000_000,
         "timeout": {"quick": 1500, "thorough": 3600},
     }
 
